@@ -245,11 +245,16 @@ def check_scenario(sc, ev=None, scratch=None, tier="quick"):
 
 # ---- a kept reader (dds.load inside a kept function) racing with a re-keep of the path it loads ---------------------
 
-def reader_strategy():
+READER_GRID = [(pl, pv) for pl in ("kept", "kept_helper", "kept_inline_arg", "helper") for pv in (False, True)]
+
+
+def reader_strategy(slot=None):
     from hypothesis import strategies as st
 
+    # the placement of the load and its spelling are spread over the shards (8 combinations), the rest is drawn
+    head = st.sampled_from(READER_GRID) if slot is None else st.just(READER_GRID[slot % len(READER_GRID)])
     return st.fixed_dictionaries({
-        "reader": st.tuples(st.sampled_from(["kept", "kept_helper", "kept_inline_arg", "root", "helper"]), st.sampled_from(["data", "keepcall"]), st.integers(0, 3)).map(list),
+        "reader": st.tuples(head, st.sampled_from(["data", "keepcall"]), st.integers(0, 3)).map(lambda t: [t[0][0], t[1], t[2], t[0][1]]),
         "cache": st.sampled_from([None, None, 2]),
         "schedules": st.lists(st.lists(st.integers(0, 1), min_size=5, max_size=120), min_size=1, max_size=3),
         "sys_seed": st.integers(0, 10 ** 6),
@@ -268,8 +273,9 @@ def check_reader_scenario(sc, ev=None, scratch=None, tier="quick"):
     import dds  # noqa
     import shutil
 
-    placement, producer, noise = sc["reader"]
-    prog_old, root, p_entry, reader_kept = c09.build(placement, "earlier_eval", producer, noise, False)
+    placement, producer, noise = sc["reader"][:3]
+    pathvar = bool(sc["reader"][3]) if len(sc["reader"]) > 3 else False   # the path is loaded through a module-level Path constant
+    prog_old, root, p_entry, reader_kept = c09.build(placement, "earlier_eval", producer, noise, False, False, pathvar)
     prog_new = M.apply_edit(prog_old, ["setvar", 0, 2])
     pstyle = "direct" if M.is_data(prog_old["funcs"][p_entry]) else "eval"
     cache = sc["cache"]
@@ -372,7 +378,7 @@ def shard(idx, n, tier, seed, count):
     try:
         v = common.hyp_drive(scenario_strategy(opts), lambda c: check_scenario(c, ev, scratch, tier), seed * 1000 + 700 + idx, count, ev, shrink_budget=10)
         if v is None and idx % 2 == 0:
-            v = common.hyp_drive(reader_strategy(), lambda c: check_reader_scenario(c, ev, scratch, tier), seed * 1000 + 750 + idx, max(1, count // 2), ev, shrink_budget=6)
+            v = common.hyp_drive(reader_strategy(idx // 2), lambda c: check_reader_scenario(c, ev, scratch, tier), seed * 1000 + 750 + idx, max(1, count // 2), ev, shrink_budget=6)
     finally:
         scratch.clean()
     return ev, v
